@@ -327,7 +327,7 @@ pub fn property() -> Property {
         ),
         prop_family(
             "random-trees",
-            60_000,
+            300_000,
             3_000_000,
             |_| (random_expr(40), any::<u64>()).prop_map(|(expr, salt)| ExprCase { expr, salt }),
             check_expr,
